@@ -112,3 +112,34 @@ Fixpoint fifo_first_bad (k : qkind) (n : nat) (q : list Z) (i : nat) (h : list o
   end.
 Definition fifo_conforms (k : qkind) (n : nat) (h : list obs) : bool :=
   match fifo_first_bad k n [] 0%nat h with None => true | Some _ => false end.
+
+(* ------------------------------------------------------------------------------------------------
+   Stream acceptor (certified in QueueProofs.v: stream_run_sound).  Used for CHAINS in which a library queue is fed /
+   drained through the library's own CL<->RTL interface adapters: only the two message streams are judged (what the
+   producer got accepted, what the consumer got delivered), not the same-cycle ready rules (the adapters add
+   buffering and scheduling of their own).  The outstanding messages follow the OBSERVED transfers; every delivered
+   message must be the oldest outstanding one (a message accepted in the same cycle may pass straight through);
+   never more than cap outstanding.  Returns the outstanding messages at the end, None on a violation. *)
+Definition stream_step (cap : nat) (q : list Z) (c : obs) : option (list Z) :=
+  if b_rst c then Some [] else
+  let q1 := if b_enq_fire c then q ++ [b_msg c] else q in
+  if b_deq_fire c then
+    match q1 with
+    | m :: t => if (b_out c =? m) && (length t <=? cap)%nat then Some t else None
+    | [] => None
+    end
+  else if (length q1 <=? cap)%nat then Some q1 else None.
+Fixpoint stream_run (cap : nat) (q : list Z) (h : list obs) : option (list Z) :=
+  match h with
+  | [] => Some q
+  | c :: r => match stream_step cap q c with Some q' => stream_run cap q' r | None => None end
+  end.
+(* first cycle at which the streams are violated; a history that ends with messages still outstanding although the
+   harness drained it is reported at index = length (message lost) *)
+Fixpoint stream_first_bad (cap : nat) (q : list Z) (i : nat) (h : list obs) : option nat :=
+  match h with
+  | [] => match q with [] => None | _ => Some i end
+  | c :: r => match stream_step cap q c with Some q' => stream_first_bad cap q' (S i) r | None => Some i end
+  end.
+Definition obs_accepted (h : list obs) : list Z := flat_map (fun c => if b_enq_fire c then [b_msg c] else []) h.
+Definition obs_delivered (h : list obs) : list Z := flat_map (fun c => if b_deq_fire c then [b_out c] else []) h.
